@@ -18,6 +18,10 @@ func main() {
 		fmt.Println("usage: vcheck Cxx [quick|thorough] [--replay file]")
 		os.Exit(2)
 	}
+	if os.Args[1] == "--c06-worker" && len(os.Args) > 2 {
+		props.C06Worker(os.Args[2])
+		return
+	}
 	prop := os.Args[1]
 	tier := os.Getenv("VERIF_TIER")
 	replay := ""
